@@ -11,7 +11,8 @@ From J5V.lib Require Civil Decimal.
 From J5V.proofs Require CodecDecDecimal CodecDecTimeFast.
 From Coq Require Import Permutation.
 From J5V.model Require CodecDecCommute.
-From J5V.proofs Require CodecDecMsgSorted CodecDecReorder CodecDecLenient CodecDecOneofReorder CodecDecDenote CodecDecFull.
+From J5V.proofs Require CodecDecMsgSorted CodecDecReorder CodecDecLenient CodecDecOneofReorder CodecDecDenote CodecDecFull CodecDecSpace CodecDecFloatProofs.
+From J5V.model Require CodecDecFloat.
 Import ListNotations.
 Local Open Scope N_scope.
 
@@ -778,6 +779,85 @@ Example C03_example_full :
   decode_document no_oracles pos_env [78] ([32; 10] ++ ok_doc ++ [10; 32; 9; 13]) =
     decode_document no_oracles pos_env [78] ok_doc.
 Proof. vm_compute. repeat split; reflexivity. Qed.
+
+(* ------------------------------------------------------------------ insignificant white space *)
+(* Decoder.Token() skips white space before the token it reads in every tokenizer state, and again behind
+   a ':' or ',' it passes: white space at those places never reaches the decoder *)
+Theorem C03_whitespace_before_any_token : forall ws st stack s, CodecDecSpace.all_space ws ->
+  token_call st stack (ws ++ s) = token_call st stack s.
+Proof. exact CodecDecSpace.token_call_ws. Qed.
+Print Assumptions C03_whitespace_before_any_token.
+
+Theorem C03_whitespace_after_separator : forall ws st stack c s, CodecDecSpace.all_space ws -> (c = 58 \/ c = 44)%N ->
+  token_call st stack (c :: ws ++ s) = token_call st stack (c :: s).
+Proof. exact CodecDecSpace.token_call_ws_after_sep. Qed.
+Print Assumptions C03_whitespace_after_separator.
+
+(* white space in front of the document: same tokens, same end-of-input observation, same result of JSONToProto *)
+Theorem C03_leading_whitespace_same_result : forall orc e root ws bs, CodecDecSpace.all_space ws ->
+  decode_document orc e root (ws ++ bs) = decode_document orc e root bs.
+Proof. exact CodecDecSpace.decode_document_leading_ws. Qed.
+Print Assumptions C03_leading_whitespace_same_result.
+
+(* ------------------------------------------------------------------ float values, under the float oracle law *)
+(* model/CodecDecFloat.v: [rounds fmt m e bits] = bits is the IEEE-754 round-to-nearest, ties-to-even value
+   of m * 10^e (two midpoint comparisons in exact integer arithmetic; a stored infinity never rounds);
+   [float_oracle_law orc]: whatever ParseFloat accepts of a decimal text (exponent within +-2000) is that
+   value, for binary64 and binary32.  Every run checks the law's instance on every float text of every
+   decode case against the real strconv.ParseFloat (float_table_ok in dec_check). *)
+Theorem C03_float64_value_exact : forall orc v s m e bits, CodecDecFloat.float_oracle_law orc ->
+  CodecDecFloatProofs.float_text v = Some s -> Decimal.dec_parse s = Some (m, e) ->
+  (Z.abs e <= CodecDecFloat.float_exp_bound)%Z ->
+  scalar_from_go orc KFloat64 v = Ok (Some (VFloat bits)) -> CodecDecFloat.rounds CodecDecFloat.binary64 m e bits = true.
+Proof. exact CodecDecFloatProofs.float64_value_exact. Qed.
+Print Assumptions C03_float64_value_exact.
+
+Theorem C03_float32_value_exact : forall orc v s m e bits, CodecDecFloat.float_oracle_law orc ->
+  CodecDecFloatProofs.float_text v = Some s -> Decimal.dec_parse s = Some (m, e) ->
+  (Z.abs e <= CodecDecFloat.float_exp_bound)%Z ->
+  scalar_from_go orc KFloat32 v = Ok (Some (VFloat bits)) -> CodecDecFloat.rounds CodecDecFloat.binary32 m e bits = true.
+Proof. exact CodecDecFloatProofs.float32_value_exact. Qed.
+Print Assumptions C03_float32_value_exact.
+
+(* the reading is sharp: 0.1 rounds to 0x3FB999999999999A and to neither neighbour; 2^53 + 1 (a tie) to the
+   even 2^53; the float32 double-rounding text of fix 684dc42 to 0x3f800001, not 0x3f800000 *)
+Example C03_example_float_rounding :
+  CodecDecFloat.rounds CodecDecFloat.binary64 1 (-1) 4591870180066957722 = true /\
+  CodecDecFloat.rounds CodecDecFloat.binary64 1 (-1) 4591870180066957721 = false /\
+  CodecDecFloat.rounds CodecDecFloat.binary64 1 (-1) 4591870180066957723 = false /\
+  CodecDecFloat.rounds CodecDecFloat.binary64 9007199254740993 0 4845873199050653696 = true /\
+  CodecDecFloat.rounds CodecDecFloat.binary64 9007199254740993 0 4845873199050653697 = false /\
+  CodecDecFloat.rounds CodecDecFloat.binary32 100000005960464477539062500000000000000000000000001 (-50) 1065353217 = true /\
+  CodecDecFloat.rounds CodecDecFloat.binary32 100000005960464477539062500000000000000000000000001 (-50) 1065353216 = false /\
+  CodecDecFloat.rounds CodecDecFloat.binary64 17976931348623159 292 9218868437227405311 = false.
+Proof. vm_compute. repeat split; reflexivity. Qed.
+
+(* ------------------------------------------------------------------ the oracles instantiated (closed corollaries) *)
+(* model_oracles: time.Parse = the Go-tied model go_time_parse, decimal.NewFromString = lib/Decimal.v,
+   ParseFloat = a table of correctly rounded values.  It satisfies time_oracle_is_model,
+   decimal_oracle_is_model and float_oracle_law, so the premises of the theorems above are satisfiable
+   and the theorems hold of it without any oracle premise. *)
+Theorem C03_oracle_premises_satisfied :
+  T.time_oracle_is_model CodecDecFloatProofs.model_oracles /\
+  D.decimal_oracle_is_model CodecDecFloatProofs.model_oracles /\
+  CodecDecFloat.float_oracle_law CodecDecFloatProofs.model_oracles.
+Proof. exact (conj CodecDecFloatProofs.model_oracles_time (conj CodecDecFloatProofs.model_oracles_decimal CodecDecFloatProofs.model_oracles_float)). Qed.
+Print Assumptions C03_oracle_premises_satisfied.
+
+Theorem C03_timestamp_any_offset_closed : forall f g,
+  T.shape f -> T.shape g -> T.in_range f = true -> T.in_range g = true ->
+  T.instant f = T.instant g -> T.nanos f = T.nanos g ->
+  scalar_from_go CodecDecFloatProofs.model_oracles KTimestamp (GStr (T.text f)) =
+  scalar_from_go CodecDecFloatProofs.model_oracles KTimestamp (GStr (T.text g)).
+Proof. exact CodecDecFloatProofs.timestamp_any_offset_closed. Qed.
+Print Assumptions C03_timestamp_any_offset_closed.
+
+Theorem C03_decimal_exact_closed : forall quoted s c,
+  scalar_from_go CodecDecFloatProofs.model_oracles KDecimal (D.dec_goval quoted s) = Ok (Some (mk_decimal c)) ->
+  exists m e b, Decimal.dec_parse s = Some (m, e) /\ c = Decimal.dec_print m e /\
+                Decimal.dec_parse c = Some b /\ Decimal.dec_eq (m, e) b.
+Proof. exact CodecDecFloatProofs.decimal_exact_closed. Qed.
+Print Assumptions C03_decimal_exact_closed.
 
 (* LIMITS of C03_full (also in pylib/propcfg/C03.py "partial"):
    - the leaf reading inside [denotes] is the conversion of the one token (scalar_from_go); what that
